@@ -246,6 +246,8 @@ def run(facts, rep, tier):
         if rep.floor("C10.D4", "match over string formats", len(ms), 1):
             m = ms[0]
             got = {}
+            from lib import table_is_plain
+            table_is_plain(rep, "C10.D4", "string-formats", m)
             for a in m["arms"]:
                 p = psrc(a["pat"])
                 mm = re.match(r'Some\("([^"]+)"\)', p)
